@@ -102,8 +102,11 @@ open RF in
     defined: its dictionaries may list their keys in any order, own or foreign encoder — the
     `paths` / `fileinfo` that `Checker.check_paths` / `walk_file_tree` build (path below the
     payload root, recorded length, pieces root; and `total`) are exactly the files the
-    metafile describes per BEP 3 / BEP 52: v1 the `files` list in order, padding entries
-    included, or the single file; v2 / hybrid the leaves of the file tree, or the single file
+    metafile describes per BEP 3 / BEP 52: v1 the `files` list in order, or the single file —
+    and the code now agrees with the specification on BEP 47 padding entries: an entry whose
+    `attr` contains `p` is marked as padding (`fileinfo[i]["pad"]`, `RF.padMark` in both), it
+    contributes its length in zeros and is never looked up on disk (`pad_entry_never_read`);
+    v2 / hybrid the leaves of the file tree, or the single file
     (`length` present, or tree `{name: file}` on a regular-file payload — the repaired D11
     rule).  The one exception is excluded by `hne` and exhibited in
     `emptySingleV2_keyError`. -/
@@ -128,6 +131,42 @@ example :
         (K.metaVersion, .int 2), (K.name, .str [110]), (K.pieceLength, .int 4)] [110] 2 true
       = .ok ([([], 7, some [1, 2])], 7) := by
   decide
+
+open RF in
+/-- A v1 padding entry is never read: whatever the disk holds at its path — nothing, a real
+    file, a directory — `FeedChecker` gets "absent" for it (zeros of the recorded length), as
+    the specification says (`Spec.v1Disk`). -/
+theorem pad_entry_never_read (root : Node) (r : FileRec) (rs : List FileRec)
+    (h : isPadRec r = true) :
+    Impl.rcV1Entries root (r :: rs) = (Impl.rcV1Entries root rs).map ((r.2.1, none) :: ·) ∧
+    Spec.v1Disk root r = none :=
+  ⟨Spec.rcV1Entries_pad root r rs h, by simp [Spec.v1Disk, h]⟩
+
+/-- `attr` = `p`, `xp`: the entry `.pad/2` is marked and the real file `.pad/2` = 9 9 on disk is
+    not read — 8 of 8; `attr` = `x` or empty: an ordinary file, its bytes 9 9 are read and
+    piece 1 fails.  (Substring test: `x` does not count, `xp` does.) -/
+example :
+    Spec.describedFiles (RF.Ex.v1PadMeta [112]) false
+      = some [([[97]], 4, none), ([[46, 112, 97, 100], [50]], 2, RF.padMark), ([[98]], 2, none)] := by
+  decide +kernel
+
+example :
+    Impl.recheckMeta RF.Ex.h1 toyH 2 2 (RF.Ex.v1PadMeta [112]) [110] (some RF.Ex.v1PadDisk)
+      = .ok ([(true, 4), (true, 4)], 8, 8) ∧
+    Impl.recheckMeta RF.Ex.h1 toyH 2 2 (RF.Ex.v1PadMeta [120, 112]) [110] (some RF.Ex.v1PadDisk)
+      = .ok ([(true, 4), (true, 4)], 8, 8) ∧
+    Impl.recheckMeta RF.Ex.h1 toyH 2 2 (RF.Ex.v1PadMeta [120]) [110] (some RF.Ex.v1PadDisk)
+      = .ok ([(true, 4), (false, 4)], 4, 8) ∧
+    Impl.recheckMeta RF.Ex.h1 toyH 2 2 (RF.Ex.v1PadMeta []) [110] (some RF.Ex.v1PadDisk)
+      = .ok ([(true, 4), (false, 4)], 4, 8) := by
+  decide +kernel
+
+/-- a padding entry does not count among the described top-level names of `_is_parent` -/
+example :
+    Impl.topsOf (Impl.infoOf (RF.Ex.v1PadMeta [112])) [110] = .ok (some [[97], [98]]) ∧
+    Impl.topsOf (Impl.infoOf (RF.Ex.v1PadMeta [120])) [110]
+      = .ok (some [[97], [46, 112, 97, 100], [98]]) := by
+  decide +kernel
 
 /-- COUNTEREXAMPLE to the file-map statement without `hne` (the real `Checker` agrees with
     the model: `KeyError: 'pieces root'`).  A v2 (or hybrid) metafile that describes one
@@ -390,13 +429,14 @@ open TorrentVerif TorrentVerif.E2E TorrentVerif.Ex.G7
     `total` is the number of bytes of the tree; with `align` on a directory it is the length
     of the piece-aligned stream (every file followed by its padding), which the padding
     entries of `files` add to the payload.
-    With `align` two side conditions are needed, both about a directory entry literally named
-    `.pad` (the directory the padding entries `.pad/<n>` point into):
-    `hpad` — the tree has no top-level entry `.pad`: otherwise a padding entry may name a real
-    file, whose bytes the checker then reads instead of zeros (see `pad_dir_breaks_align`);
+    With `align` two side conditions about a directory entry literally named `.pad` (the
+    directory the padding entries `.pad/<n>` point into) are still assumed here; both were
+    necessary before the repairs d2b4fef / 65351cc of `recheck.py` and are redundant since
+    (see `pad_dir_is_never_read`, `pad_in_namesake_resolves`):
+    `hpad` — the tree has no top-level entry `.pad` (a padding entry could name a real file;
+    the checker no longer reads it);
     `hpadInner` (root argument only) — an entry of the tree named like the torrent has no entry
-    `.pad`: otherwise `_is_parent` may find more of the described top-level names in there and
-    `find_root` takes that entry for the payload. -/
+    `.pad` (padding entries no longer count among the described top-level names). -/
 theorem recheck_of_created_v1 (o : CreateOpts) (align : Bool) (H1 H : Bytes → Bytes) (B hs : Nat)
     (hhs : 0 < hs) (hH1 : ∀ x, (H1 x).length = 20)
     (enum : List (List (Bytes × Bytes)) → List (List (Bytes × Bytes)))
@@ -487,48 +527,52 @@ example : (∃ r b total, Impl.createV1 exOpts true Toy.toyH20 id [100] exTree =
     subst ht
     exact ⟨r, b, h, hroot⟩
 
-/-- WITNESS that `hpad` is needed (the real `TorrentFile(align=True)` + `Checker` agree: 50 %).
-    The tree `r` holds `.pad/1` (one byte) and `a` (three bytes), piece length 4.  The padding
-    entry written after `a` is `.pad/1` — the path of the real file — so the checker reads that
-    file's byte where the hasher put a zero: piece 1 fails, 4 of 8 bytes.  All other hypotheses
-    of `recheck_of_created_v1` hold (no entry is named like the torrent). -/
-theorem pad_dir_breaks_align :
+/-- The former witness for `hpad` is resolved (repair d2b4fef: a padding entry is never read
+    from disk; the real `TorrentFile(align=True)` + `Checker` agree: 100 %).  The tree `r` holds
+    `.pad/1` (one byte) and `a` (three bytes), piece length 4.  The padding entry written after
+    `a` is `.pad/1` — the path of the real file.  Before the repair the checker read that file's
+    byte where the hasher put a zero (4 of 8 bytes); now the padding entry is zeros whatever
+    sits at its path, the real file `.pad/1` is still read for its own entry, and all 8 bytes
+    verify.  (`hpad` of `recheck_of_created_v1` is therefore no longer necessary.) -/
+theorem pad_dir_is_never_read :
     ∃ (o : CreateOpts) (t : Node) (r : BVal) (b : Bytes),
       Spec.WellNamed t ∧ PlainNamed t ∧ 0 < o.pieceLength ∧ 0 < treeBytes t ∧
       (RF.child t Impl.sPad).isSome = true ∧ (RF.child t o.name).isNone = true ∧
       Impl.createV1 o true Toy.toyH20 id [114] t = some (r, b) ∧
       Impl.recheck Toy.toyH20 Toy.toyH 2 1 b ⟨.root, o.name⟩ t
-        = .ok ([(true, 4), (false, 4)], 4, 8) :=
+        = .ok ([(true, 4), (true, 4)], 8, 8) :=
   ⟨Ex.plainOpts, Ex.padTree, _, _, Ex.padTree_wellNamed, Ex.padTree_plainNamed, by decide, by decide,
     by decide, by decide, Ex.padTree_created, by decide +kernel⟩
 
-/-- the padding entry after `a` (3 of 4 bytes) is `.pad/1`, and `.pad/1` is a real file -/
-example : Spec.fileBytes Ex.padTree [Impl.sPad, natDec (gap 4 3)] = some [7] := by decide +kernel
+/-- the padding entry after `a` (3 of 4 bytes) is `.pad/1`, and `.pad/1` is a real file; as a
+    padding entry it is nevertheless absent for the checker -/
+example : Spec.fileBytes Ex.padTree [Impl.sPad, natDec (gap 4 3)] = some [7] ∧
+    Spec.v1Disk Ex.padTree ([Impl.sPad, natDec (gap 4 3)], 1, RF.padMark) = none := by
+  decide +kernel
 
-/-- WITNESS that `hpadInner` is needed (the real tool agrees: 25 %; the hybrid creators behave
-    alike on this tree: 3 of 8 bytes, 37.5 %).  The tree `r` holds `a` and a directory `r`
-    with `.pad`, `a`, `r`; piece-aligned.  The described top-level names are `a`, `r` and
-    `.pad` (from the padding entries): two of them exist in the payload, all three in its
-    entry `r`, so `find_root` takes `r/r` for the payload: 4 of 16 bytes.  Through a parent
-    named `h` the same metafile gives 16 of 16.  All other hypotheses hold (no top-level
-    `.pad`). -/
-theorem pad_in_namesake_misleads_find_root :
+/-- The former witness for `hpadInner` is resolved (repair 65351cc: padding entries do not count
+    among the described top-level names; the real tool agrees: 100 %).  The tree `r` holds `a`
+    and a directory `r` with `.pad`, `a`, `r`; piece-aligned.  The described top-level names
+    are now `a` and `r` only: both exist in the payload and in its entry `r` — a tie — so
+    `find_root` stays at the payload: 16 of 16 bytes through the root, as through a parent
+    named `h`.  (Before: `.pad` counted, three names in `r/r` against two, 4 of 16.) -/
+theorem pad_in_namesake_resolves :
     ∃ (o : CreateOpts) (t : Node) (r : BVal) (b : Bytes),
       Spec.WellNamed t ∧ PlainNamed t ∧ 0 < o.pieceLength ∧ 0 < treeBytes t ∧
       (RF.child t Impl.sPad).isNone = true ∧
       ((RF.child t o.name).bind (RF.child · Impl.sPad)).isSome = true ∧
       Impl.createV1 o true Toy.toyH20 id [114] t = some (r, b) ∧
       Impl.recheck Toy.toyH20 Toy.toyH 2 1 b ⟨.root, o.name⟩ t
-        = .ok ([(true, 4), (false, 4), (false, 4), (false, 4)], 4, 16) ∧
+        = .ok ([(true, 4), (true, 4), (true, 4), (true, 4)], 16, 16) ∧
       Impl.recheck Toy.toyH20 Toy.toyH 2 1 b ⟨.parent, [104]⟩ t
         = .ok ([(true, 4), (true, 4), (true, 4), (true, 4)], 16, 16) :=
   ⟨Ex.plainOpts, Ex.innerTree, _, _, Ex.innerTree_wellNamed, Ex.innerTree_plainNamed, by decide,
     by decide, by decide, by decide, Ex.innerTree_created, by decide +kernel, by decide +kernel⟩
 
-/-- `.pad` exists below the entry `r` but not at the top: three of the described top-level
-    names are found in `r/r`, two in `r` -/
-example : (RF.child Ex.innerTree [114]).map (fun n => Impl.countTops n [[97], Impl.sPad, [114]]) = some 3 ∧
-    Impl.countTops Ex.innerTree [[97], Impl.sPad, [114]] = 2 := by decide
+/-- the described top-level names `a`, `r` are found twice in `r/r` and twice in `r`: no more
+    in the entry than in the payload -/
+example : (RF.child Ex.innerTree [114]).map (fun n => Impl.countTops n [[97], [114]]) = some 2 ∧
+    Impl.countTops Ex.innerTree [[97], [114]] = 2 := by decide
 
 /-- v2 (`TorrentFileV2`, and `TorrentAssembler` with `meta_version="2"`), directory or single
     file.  Block size `B > 0`, piece length `2^j · B`, any `H` with `hs`-byte digests
@@ -600,11 +644,11 @@ example : (∃ r b, Impl.createV2Class exOpts Toy.toyH 2 1 List.reverse exTree =
     20-byte digests), directory or single file: the same statement — a hybrid metafile is
     rechecked through its v2 part, so `total` is the number of bytes of the tree (the padding
     entries of `files` do not count).
-    One more side condition, for the root argument only — `hpadInner`: an entry of the tree
-    named like the torrent has no entry named `.pad`.  `_is_parent` counts the first path
-    components of `files` (among them `.pad`, from the padding entries) below the payload and
-    below that entry; with a `.pad` in there it can find more of them, and `find_root` then
-    takes the entry for the payload (see `pad_in_namesake_misleads_find_root`). -/
+    One more side condition, for the root argument only, is still assumed — `hpadInner`: an
+    entry of the tree named like the torrent has no entry named `.pad`.  It was necessary while
+    `_is_parent` counted `.pad` (from the padding entries of `files`) among the described
+    top-level names; since repair 65351cc padding entries do not count and it is redundant
+    (see `pad_in_namesake_resolves`). -/
 theorem recheck_of_created_hybrid (o : CreateOpts) (H1 H : Bytes → Bytes) (B hs j : Nat)
     (hhs : 0 < hs) (hH : ∀ x, (H x).length = hs) (hB : 0 < B) (hpl : o.pieceLength = 2 ^ j * B)
     (enum : List (Bytes × Impl.FTree) → List (Bytes × Impl.FTree)) (henum : ∀ l, (enum l).Perm l)
